@@ -77,7 +77,9 @@ func hostileBlob(t *Tape, valid []byte) (blob []byte, kind string) {
 // fields lie: lengths of 2^63..2^64-1, lengths past the end, nested lengths,
 // wire types 3/4/6/7, overlong varints, huge field numbers.
 func adversarialPB(t *Tape) []byte {
-	hugeLens := []uint64{1 << 63, 1<<63 + 1, 1<<64 - 1, 1<<64 - 8, 1 << 62, 1 << 32, 1<<31 - 1, 1 << 40}
+	hugeLens := []uint64{1 << 63, 1<<63 + 1, 1<<64 - 1, 1<<64 - 8, 1 << 62, 1 << 32, 1<<31 - 1, 1 << 40,
+		// just below the sign bit: adding a small offset wraps a signed sum
+		1<<63 - 1, 1<<63 - 2, 1<<63 - 8, 1<<63 - 16, 1<<63 - 64, 1<<62 + 1<<61, 1<<32 - 1, 1<<31 + 1}
 	evil := func(w *pbw, field int) {
 		switch t.Choose("h-evil", 7) {
 		case 0: // length-delimited with a huge length
